@@ -1078,55 +1078,64 @@ func ruleFileSizeSkip(c *Ctx, r *Rule) {
 	fi := c.info(fn)
 	c.guards(fn)
 	accum := accumWeb(s)
-	var skip *ssa.Phi
+	var web *phiWebT
 	for _, l := range c.unitGuards(s.in) {
 		if p, ok := l.v.(*ssa.Phi); ok && !l.pol {
 			if b, isB := p.Type().Underlying().(*types.Basic); isB && b.Kind() == types.Bool {
-				skip = p
+				web = phiWeb(p)
 			}
 		}
 	}
-	if skip == nil {
+	if web == nil {
 		r.Inst(1)
 		r.Ob(true, "worker.work|no-size-skip", fn.Pos(), "the reader does not drop lines by size itself")
 		return
 	}
+	var phis []*ssa.Phi
+	for p := range web.phis {
+		phis = append(phis, p)
+	}
+	sort.Slice(phis, func(i, j int) bool { return phis[i].Block().Index < phis[j].Block().Index })
 	n := 0
-	for i, e := range skip.Edges {
-		k, isK := constBool(e)
-		if !isK || !k {
-			continue
-		}
-		n++
-		r.Inst(1)
-		pred := skip.Block().Preds[i]
-		ok := false
-		desc := ""
-		for _, l := range unitLits(append(append([]clause(nil), fi.facts[pred]...), c.edgeFacts(fi, pred, skip.Block())...)) {
-			op, x, y, isCmp := cmpLit(l)
-			if !isCmp || op != token.GTR {
+	for _, skip := range phis {
+		for i, e := range skip.Edges {
+			k, isK := constBool(e)
+			if !isK || !k {
 				continue
 			}
-			if !isLoadOfField(y, fileInPkg, "worker", "maxEventSize") {
-				continue
-			}
-			f := lin(x)
-			desc = c.linString(f)
-			hasAcc, hasLine := false, false
-			for key, cnt := range f.t {
-				if !key.isLen || cnt != 1 {
+			n++
+			r.Inst(1)
+			pred := skip.Block().Preds[i]
+			ok := false
+			desc := ""
+			for _, l := range unitLits(append(append([]clause(nil), fi.facts[pred]...), c.edgeFacts(fi, pred, skip.Block())...)) {
+				op, x, y, isCmp := cmpLit(l)
+				if !isCmp || op != token.GTR {
 					continue
 				}
-				if accum != nil && accum.has(key.v) {
-					hasAcc = true
+				if !isLoadOfField(y, fileInPkg, "worker", "maxEventSize") {
+					continue
 				}
-				if sl, isSl := key.v.(*ssa.Slice); isSl && sl.X == ssa.Value(s.window) {
-					hasLine = true
+				f := lin(x)
+				desc = c.linString(f)
+				hasAcc, hasLine := false, false
+				for key, cnt := range f.t {
+					if !key.isLen || cnt != 1 {
+						continue
+					}
+					if accum != nil && accum.has(key.v) {
+						hasAcc = true
+					}
+					if sl, isSl := key.v.(*ssa.Slice); isSl && sl.X == ssa.Value(s.window) {
+						hasLine = true
+					}
+				}
+				if hasAcc && hasLine && len(f.t) == 2 && f.k == 0 {
+					ok = true
 				}
 			}
-			ok = hasAcc && hasLine && len(f.t) == 2 && f.k == 0
+			r.Ob(ok, fmt.Sprintf("worker.work|size-skip#%d", n), skip.Pos(), "a line is marked to be dropped only when len(accumulated) + len(line) > max_event_size; compared: "+desc)
 		}
-		r.Ob(ok, fmt.Sprintf("worker.work|size-skip#%d", n), skip.Pos(), "a line is marked to be dropped only when len(accumulated) + len(line) > max_event_size; compared: "+desc)
 	}
 	if n == 0 {
 		r.Inst(1)
